@@ -48,13 +48,13 @@ PROPS = {
     'C02': dict(traits=None, part='all', count=True, theorems=['DW.C02_impl_list', 'DW.C02_delegation_same_bounds', 'DW.implPreds_shortcut', 'DW.C18_effect', 'DW.C09_fieldwise', 'DW.C06_skipped_never_mentioned'],
                 enums=None, configs_quick=['default', 'safe', 'zod'], diagnostics=True, design='7/C02'),
     'C03': dict(traits=['PartialEq'], theorems=['DW.C03_eq'], enums=['incomparable', 'skip'], design='7/C03'),
-    'C04': dict(traits=['PartialOrd', 'Ord'], theorems=['DW.buildDiscriminants_spec', 'DW.C04_ord_refines', 'DW.C04_delegation', 'DW.C04_agree'],
+    'C04': dict(tables=True, traits=['PartialOrd', 'Ord'], theorems=['DW.buildDiscriminants_spec', 'DW.C04_ord_refines', 'DW.C04_delegation', 'DW.C04_agree'],
                 enums=['discriminants', 'incomparable', 'skip'], configs_quick=['default', 'safe', 'nightly'], design='7/C04'),
-    'C05': dict(traits=['PartialEq', 'Eq', 'PartialOrd', 'Ord', 'Hash'],
+    'C05': dict(tables=True, traits=['PartialEq', 'Eq', 'PartialOrd', 'Ord', 'Hash'],
                 theorems=['DW.C05_skip_uniform', 'DW.C05_skip_hash_superset', 'DW.C05_eq_iff_pcmp', 'DW.C05_eq_symm', 'DW.C05_eq_trans',
                           'DW.C05_lt_gt', 'DW.C05_lt_trans', 'DW.C05_eq_hash', 'DW.C04_agree'],
                 enums=['skip', 'incomparable', 'invalid'], design='7/C05'),
-    'C06': dict(traits=None, part='all', item_filter='skip', theorems=['DW.Skip.traitSkipped_eq_covers', 'DW.C06_invisible_eq', 'DW.C06_invisible_pcmp', 'DW.C06_invisible_hash',
+    'C06': dict(tables=True, traits=None, part='all', item_filter='skip', theorems=['DW.Skip.traitSkipped_eq_covers', 'DW.C06_invisible_eq', 'DW.C06_invisible_pcmp', 'DW.C06_invisible_hash',
                                                                          'DW.C06_invisible_debug', 'DW.C06_invisible_zeroize', 'DW.C06_visible_eq',
                                                                          'DW.relevantIdx_unskippable', 'DW.C06_unskippable_clone',
                                                                          'DW.C06_unskippable_default', 'DW.C06_no_demand_eq', 'DW.C06_skipped_never_mentioned'],
@@ -67,7 +67,7 @@ PROPS = {
                 enums=['bounds', 'skip'], design='7/C09'),
     'C10': dict(traits=['Debug'], theorems=['DW.C10_transcript', 'DW.C10_names'], enums=['debug', 'skip'], design='7/C10'),
     'C11': dict(traits=['Default'], theorems=['DW.C11_body'], enums=['default'], design='7/C11'),
-    'C12': dict(traits=['PartialEq', 'PartialOrd', 'Ord'], theorems=['DW.C12_no_ub_eq', 'DW.C12_no_ub_ord', 'DW.C12_safe_no_unsafe'],
+    'C12': dict(tables=True, traits=['PartialEq', 'PartialOrd', 'Ord'], theorems=['DW.C12_no_ub_eq', 'DW.C12_no_ub_ord', 'DW.C12_safe_no_unsafe'],
                 enums=['incomparable', 'discriminants'], configs_quick=['default', 'safe'], unsafe_scan=True, design='7/C12'),
     'C13': dict(traits=STD, theorems=['DW.C13_eq_cfg_independent', 'DW.C13_ord_cfg_independent', 'DW.C13_untouched_traits',
                                       'DW.C13_zeroize_inert', 'DW.C13_forgetDiscr'],
@@ -75,14 +75,14 @@ PROPS = {
     'C14': dict(traits=None, part='all', theorems=['DW.C14_no_method_calls', 'DW.C14_core_paths_rooted', 'DW.C14_trait_path', 'DW.C14_crate_option', 'DW.C14_fn_paths_rooted',
                                                 'DW.C14_simple_distinct', 'DW.C14_field_vs_simple', 'DW.C14_self_vs_other', 'DW.C14_binders_fresh', 'DW.C14_crate_anywhere'],
                 enums=['debug', 'zeroize', 'names'], configs_quick=['default', 'zod'], stage1=True, diagnostics=True, design='7/C14'),
-    'C15': dict(traits=[], outcome='message', theorems=['DW.C15_incomparable_total', 'DW.C15_incomparable_needs_partial', 'DW.C15_incomparable_not_both',
+    'C15': dict(tables=True, traits=[], outcome='message', theorems=['DW.C15_incomparable_total', 'DW.C15_incomparable_needs_partial', 'DW.C15_incomparable_not_both',
                                                         'DW.C15_default_unique', 'DW.C15_default_needs_derive', 'DW.C15_union_traits',
                                                         'DW.C15_skip_group_derived', 'DW.C15_no_duplicate_trait', 'DW.C15_item_attr_shape',
                                                         'DW.C15_skip_repeated', 'DW.C15_field_attr_shape', 'DW.C15_skip_redundant', 'DW.C15_skip_redundant_bare',
                                                         'DW.C15_skip_inner_no_fields', 'DW.C15_lifetime_bound', 'DW.C15_bad_trait', 'DW.C15_bad_trait_instances',
                                                         'DW.C15_empty_struct', 'DW.C15_use_case'],
                 enums=['invalid', 'skip', 'default'], configs_quick=['default', 'zeroize'], diagnostics=True, design='7/C15'),
-    'C16': dict(traits=[], outcome='message', theorems=['DW.C16_no_panic_stage2', 'DW.Input.fromInput_np', 'DW.genPanic_none', 'DW.C16_stage1_item_kept', 'DW.C16_stage1_forward', 'DW.C16_pipeline'],
+    'C16': dict(tables=True, traits=[], outcome='message', theorems=['DW.C16_no_panic_stage2', 'DW.Input.fromInput_np', 'DW.genPanic_none', 'DW.C16_stage1_item_kept', 'DW.C16_stage1_forward', 'DW.C16_pipeline'],
                 enums=['invalid', 'names'], stage1=True, malformed=0.6, configs_quick=['default', 'zeroize'], diagnostics=True, design='7/C16'),
     'C17': dict(traits=['Eq', 'Clone'], theorems=['DW.C17_eq_obligations', 'DW.C17_union', 'DW.C06_skipped_never_mentioned'], enums=['skip', 'bounds'], design='7/C17'),
     'C18': dict(traits=['Zeroize'], theorems=['DW.C18_effect'], enums=['zeroize', 'skip'], configs_quick=['zeroize', 'zod'],
@@ -150,6 +150,15 @@ def proof_obligations(prop, thorough):
                         hits.append('%s:%d: %s' % (os.path.relpath(p, VERIF), i + 1, line.strip()[:80]))
     if hits:
         res['problems'].append('forbidden constructs: ' + '; '.join(hits[:5]))
+    # finite tables: extracted from the current source, equality with the model checked by the kernel
+    if spec.get('tables'):
+        import tables
+        probs, n = tables.check(prop)
+        res['problems'] += probs
+        res['obligations'] = res.get('obligations', 0) + len(tables.THEOREMS)
+        res['discharged'] = res.get('discharged', 0) + n
+        res['tables'] = dict(theorems=len(tables.THEOREMS), discharged=n,
+                             source=['src/attr/skip.rs', 'src/trait_.rs', 'src/item.rs', 'src/error.rs'])
     # lemma count in the closure (informational)
     res['theorems_in_model'] = count_theorems()
     if thorough:
